@@ -10,7 +10,7 @@ ID = "C12"
 META = {
     "technique": "runtime monitoring: history of register/add/remove/update calls replayed against an executable dict-of-dicts model; network tables compared after every operation",
     "design_ref": "DESIGN.md section 6 C12",
-    "level_text": "exploration: thousands of random operation sequences with Currents built by random expression trees (sum, difference, scalar multiple on either side, all constructor forms); after every operation constraints_as_df(), constraint_matrix, magnitudes and constraint_index are compared with the model, then subset/period queries of constraint_current against the model product; the frame returned by constraints_as_df() is edited by the client; constraint_current over up to 20000 periods",
+    "level_text": "exploration: thousands of random operation sequences with Currents built by random expression trees (sum, difference, scalar multiple on either side, all constructor forms); after every operation constraints_as_df(), constraint_matrix, magnitudes and constraint_index are compared with the model, then subset/period queries of constraint_current against the model product; the frame returned by constraints_as_df() is edited by the client; constraint_current over up to 20000 periods; every Current also handed, as the same object, to a second network with other stations; unusual and absent constraint names",
     "level_note": "names are explicit and unique except one deliberate duplicate per some sequences (judged only on row count and contents, not on the generated name); coefficients compared with atol 1e-12",
 }
 LEVEL = "exploration"
